@@ -280,7 +280,16 @@ fn lin_case<F: Fl>(cx: &mut Ctx, r: &mut Sm64, m: Meth, colmajor: bool, x: Vec<V
     let (meta, nt) = Meta::gen(r, n, p);
     let xa = arr(&x, p, colmajor);
     let ds = meta.dataset(xa.clone(), nt);
-    let params = LinearScalerParams::new(m.to::<F>());
+    // parameter-object history: every second case builds the parameter object with ANOTHER method, fits it once on the
+    // data, then sets the case's method through the documented setter; the fit that follows is the one that is judged
+    let params = if id % 2 == 1 {
+        let other = match m.to::<F>() { ScalingMethod::Standard(_, _) => ScalingMethod::MaxAbs, _ => ScalingMethod::Standard(true, true) };
+        let p0 = LinearScalerParams::new(other);
+        let _ = guarded(AssertUnwindSafe(|| p0.fit(&ds).map(|_| ())));
+        p0.method(m.to::<F>())
+    } else {
+        LinearScalerParams::new(m.to::<F>())
+    };
     let fitted = guarded(AssertUnwindSafe(|| params.fit(&ds)));
     let mut tags: Vec<String> = vec![format!("method_{}", m.name()), F::NAME.into(), stream.into()];
     if colmajor { tags.push("colmajor".into()); }
